@@ -218,6 +218,7 @@ DoRelease(s0, ev) ==
     [ s |-> [s0 EXCEPT !.phase = "released"],
       fails |-> F(ev.st = OK, "C08", "release-status")
                 \cup F(ev.leak = 0, "C08", "leak-after-release")
+                \cup F("libfreed" \notin DOMAIN ev \/ ev.libfreed = 0, "C08", "library-freed-a-decoded-source-symbol-owned-by-the-application")
                 \cup F(ev.ff = 0, "C08,C07", "lib-freed-foreign-block") ]
 
 (* ---- encoder ------------------------------------------------------------ *)
